@@ -716,8 +716,32 @@ def c16(tier, replay):
                     [{"do": "send", "line": c}, {"do": "send", "line": "ucinewgame"}]):
             sessions.append(pre + probe)
             shard.append(nprobe + j)
+    # probes whose move list contains promotions of every kind (a replayed under-promotion must not depend on anything
+    # but its letter), asked of a fresh process and of one whose logging was switched on before (setoption DebugLogLevel
+    # Info is the one option the engine has; whatever is formatted for the log is only evaluated then)
+    promo = ["position fen 6k1/4P3/8/8/8/8/8/K7 w - - 0 1 moves e7e8n", "position fen 6k1/4P3/8/8/8/8/8/K7 w - - 0 1 moves e7e8r g8g7",
+             "position fen 6k1/4P3/8/8/8/8/8/K7 w - - 0 1 moves e7e8b g8f7", "position fen 6k1/4P3/8/8/8/8/8/K7 w - - 0 1 moves e7e8q g8g7",
+             "position fen k7/8/8/8/8/8/4p3/6K1 b - - 0 1 moves e2e1n", "position fen k7/8/8/8/8/8/4p3/6K1 b - - 0 1 moves e2e1r g1g2",
+             "position fen 3r2k1/4P3/8/8/8/8/8/K7 w - - 0 1 moves e7d8n", "position fen k7/8/8/8/8/8/4p3/3R2K1 b - - 0 1 moves e2d1b g1f2"]
+    logon = [{"do": "send", "line": "setoption name DebugLogLevel value Info"}, {"do": "isready"}]
+    lsessions, lshard = [], []
+    for li, cmd in enumerate(promo + live[:6]):
+        for goline, timed in (("go", False), ("go wtime 475 btime 475 movestogo 1", True)):
+            probe = [{"do": "send", "line": cmd}, {"do": "go", "line": goline, "extra": {"probe": "lg%d%s" % (li, "t" if timed else "z"), "timed": timed}}]
+            sessions.append(list(probe))
+            shard.append(nprobe + 50 + li)
+            lsessions.append(logon + [{"do": "send", "line": rng.choice(live)}, {"do": "go", "line": rng.choice(GO_ZERO)}] + probe)
+            lshard.append(nprobe + 50 + li)
     plan(h, sessions)
     logs = run_sessions(binary, sessions, 6)
+    scratch = R.trace_dir("C16-logcwd")
+    plan(h, lsessions)
+    llogs = run_sessions(binary, lsessions, 6, cwd=scratch)
+    shutil.rmtree(scratch, ignore_errors=True)
+    sessions += lsessions
+    logs += llogs
+    shard += lshard
+    run.cov["probes_with_engine_logging_on"] = len(lsessions)
     # GUI-style games (position <game so far> / go / reply / ...; the reply is the one the engine predicted or another
     # process's move): every go of the game is a probe, asked again of a fresh process afterwards
     games, gshard = game_sessions(rng, live, 6 if q else 36, "gm")
